@@ -167,6 +167,10 @@ def run_case(c):
     phs = json.dumps(tb).count(c["ph"])
     if phs == 0:
         return {"id": c["id"], "ok": True, "kind": "skipped", "why": "placeholder does not reach the tree in this context"}
+    # absolute part of the oracle: with an inert body the tag syntax itself never reaches the tree
+    leak = re.search(r"</?%s\b[^\"]{0,40}" % re.escape(c["tag"]), json.dumps(tb), re.I)
+    if leak:
+        return {"id": c["id"], "ok": False, "kind": "mismatch", "why": "tag syntax reaches the tree even with an inert body: %r" % leak.group(0), "leaf": []}
     why = compare(ta, tb, c["ph"], c["tag"], c["body"], "", found)
     if why is None and not found:
         why = "body leaf not found"
